@@ -153,6 +153,18 @@ def oracle(h):
             continue
         if op[0] == 1 and before["st"] < 6 and step[0] != 4:
             fails.append((i, "send on a connection in state %d was not refused" % before["st"], None))
+        # --- journal first, then write (R8a): holds for every send, also after a class-D20 step ---
+        if op[0] in (1, 2) and step[0] != 0 and wires:
+            fails.append((i, "send raised (outcome %r) after it had written %d frame(s)" % (step[0], len(wires)), None))
+        if op[0] == 1 and step[0] == 0:
+            if len(wires) != 1:
+                fails.append((i, "send_msg returned but wrote %d frames" % len(wires), None))
+            else:
+                w = wires[0]
+                if not (_tag(w, "43") == "Y" or (w[0] == "4" and _tag(w, "123") == "Y")):
+                    n = _int(_tag(w, "34"))
+                    if n not in keys_after:
+                        fails.append((i, "send_msg returned, frame %r is on the wire but not in the journal" % n, None))
         # --- new frames: consecutive numbers, journaled under their number, stored counter follows ---
         # new = not a reply to a ResendRequest (PossDupFlag=Y retransmission / SequenceReset-GapFill)
         new = [w for w in wires if not (_tag(w, "43") == "Y" or (w[0] == "4" and _tag(w, "123") == "Y"))]
